@@ -112,6 +112,10 @@ fn gen(rng: &mut Rng, n: usize, tier: &str) -> Vec<Req> {
         }
         emit_resolve(&mut out, rng, &sc, "room");
     }
+    for _ in 0..(n / 10).max(3) {
+        let sc = sr::gen_overlay(rng);
+        emit_resolve(&mut out, rng, &sc, "overlay");
+    }
     eprintln!("generator statistics: {stats:?}");
     out
 }
